@@ -66,7 +66,7 @@ class Res:
     def violate(self, mechanism: str, detail: str, witness: dict) -> None:
         self.viol_counts[mechanism] += 1
         if self.viol_counts[mechanism] <= MAX_VIOL_PER_MECH:
-            self.violations.append({"mechanism": mechanism, "detail": detail, "witness": witness})
+            self.violations.append({"mechanism": mechanism, "detail": detail, "witness": jsonable(witness)})
 
     def undecided(self, reason: str) -> None:
         if reason not in self.inconclusive:
@@ -91,6 +91,29 @@ class Res:
 def freeze(x: Any) -> Any:
     if isinstance(x, (list, tuple)):
         return tuple(freeze(y) for y in x)
+    return x
+
+
+def jsonable(x):
+    """Witnesses travel as JSON: binary file contents become {"__bytes__": hex}; `thaw` reverses it for replays."""
+    if isinstance(x, (bytes, bytearray)):
+        return {"__bytes__": bytes(x).hex()}
+    if isinstance(x, dict):
+        return {str(k): jsonable(v) for k, v in x.items()}
+    if isinstance(x, (list, tuple)):
+        return [jsonable(v) for v in x]
+    if isinstance(x, set):
+        return sorted((jsonable(v) for v in x), key=repr)
+    return x
+
+
+def thaw(x):
+    if isinstance(x, dict):
+        if set(x) == {"__bytes__"}:
+            return bytes.fromhex(x["__bytes__"])
+        return {k: thaw(v) for k, v in x.items()}
+    if isinstance(x, list):
+        return [thaw(v) for v in x]
     return x
 
 
